@@ -8,6 +8,8 @@
 #include <unistd.h>
 #include <fcntl.h>
 #include <sys/personality.h>
+#include <sys/time.h>
+#include <signal.h>
 
 /* --san-as C05|C06: run this harness's exploration with the sanitizers as the only oracle, on behalf of the memory-safety
  * property of the server (C05, process 0) or of the client (C06, other processes); the harness's own oracle is muted. */
@@ -21,6 +23,15 @@ static int hc_san_report(const char *sig, int proc, const char *harness)
 	snprintf(s2, sizeof s2, "%s:sanitizer:%s", hc_san_as, sig);
 	xp_violation(s2, "sanitizer report in the %s while %s explored its own alphabet (see the replay's letter sequence)", proc == 0 ? "server" : "client", harness);
 	return 1;
+}
+
+/* watchdog on the process's own CPU time (SIGPROF), not on wall-clock time: a loop that never ends burns CPU and is
+ * caught, while a machine that is merely busy with other work cannot cause a false alarm.  0 disarms. */
+static void hc_cpu_alarm(int sec)
+{
+	struct itimerval it; memset(&it, 0, sizeof it);
+	it.it_value.tv_sec = sec;
+	setitimer(ITIMER_PROF, &it, NULL);
 }
 
 typedef struct hc_args {
